@@ -21,7 +21,9 @@ def dispatch (cmd : String) (args : List String) : String :=
   | "BKD" => bkd args
   | "BKDR" => bkdr args
   | "BKDC" => bkdc args
+  | "BKDN" => bkdc args   -- the same loop over the real netlink transport (datagrams of at most 900 bytes)
   | "RUN" => runCmd args
+  | "RUNBIG" => runBig args
   | "RUNPAIR" =>
     -- two runtimes in one process do not share anything: each behaves as it does alone
     (match args.span (· ≠ "||") with
